@@ -324,4 +324,14 @@ example : litValue (String.ofList (Nat.toDigits 10 12 ++ '.' :: padDigits 2 50 +
     = some { isInt := false, value := ((12 : Nat) + (50 : Nat) / ((10 ^ 2 : Nat) : Rat)) * pow10 (-(1 : Nat)) } :=
   real_literal_exact 12 2 50 (by decide) true 1
 
+/-- A string literal is read as exactly the text between its delimiters, whatever that text is — escape
+sequences stay verbatim, in particular an escaped quote at the very end (`"say \\"hi\\""`) is kept. -/
+theorem string_literal_exact (cs : List Char) :
+    strLitValue (String.ofList ('"' :: (cs ++ ['"']))) = some (String.ofList cs) :=
+  strLitValue_quoted cs
+
+/-- `"\\""`: the value is the two characters `\\` and `"` -/
+example : strLitValue (String.ofList ['"', '\\', '"', '"']) = some (String.ofList ['\\', '"']) :=
+  string_literal_exact ['\\', '"']
+
 end PymocaVerif.Props.C03
